@@ -434,6 +434,14 @@ func runC16(t *vs.Tape, cfg map[string]string) (res vs.Result) {
 					name = d
 				}
 				if !strings.Contains(stderrS, name) {
+					if tf.compilable && !tf.either && faultedFile[rel] != "" && faultedFile[rel] != "walk" && underFaultedDir(rel) == "" {
+						// A fault on one file-system call does not have to cost the file (the
+						// call may be advisory, or retried): with no warning naming it, the file
+						// must have been analysed, so its functions count towards the total.
+						want += len(tf.lines)
+						c.Inc("scan_faulted_files_expected_analysed")
+						continue
+					}
 					res.Violation = vs.Violationf("C16/scan-silent-drop", "scan did not analyse %s and no warning names it (fault: %s)", rel, faultedFile[rel])
 					return
 				}
@@ -539,8 +547,9 @@ func runC16(t *vs.Tape, cfg map[string]string) (res vs.Result) {
 			return
 		}
 		if faultedFile[rel] != "" {
-			res.Violation = vs.Violationf("C16/fault-swallowed", "file %s was hit by fault %s but is reported as analysed without an error", rel, faultedFile[rel])
-			return
+			// hit by a fault yet reported without an error: acceptable only if it was in
+			// fact analysed completely (advisory or retried call) - checked just below
+			c.Inc("faulted_files_reported_as_analysed")
 		}
 		// analysed: every function with a body of this file, at its real file and line
 		have := map[int]bool{}
